@@ -1342,3 +1342,111 @@ def gen_io_readers(src, attempt, match_template, tokenize):
             return "Definition %s : reader_params := {| rp_pop_err := %s; rp_take_err := %s |}." % (coq, caps['pop']['?POPERR'], caps['try_take_n']['?TAKEERR'])
         attempt(out, 'de/flavors.rs:' + struct, reader, coq)
     return '\n'.join(out) + '\n'
+
+
+# ----------------------------------------------------------------------------------------
+# GenSerEntry.v: the entry points of ser/mod.rs (and the CRC ones of ser/flavors.rs): which flavour
+# stack each hands to serialize_with_flavor; serialize_with_flavor itself by template
+SER_ENTRIES = ['to_slice_cobs', 'to_slice', 'to_vec_cobs', 'to_vec', 'to_stdvec', 'to_stdvec_cobs', 'to_allocvec',
+               'to_allocvec_cobs', 'to_extend', 'to_eio', 'to_io', 'to_slice_crc32', 'to_vec_crc32', 'to_stdvec_crc32',
+               'to_allocvec_crc32', 'serialized_size']
+SWF_T = ("let mut $ser = Serializer { output : $storage } ; $value . serialize ( & mut $ser ) ? ; "
+         "$ser . output . finalize ( ) . map_err ( | _ | Error :: ?ERR )")
+DE_IO_T = ("let $flavor = flavors :: io :: ?MOD :: ?READER :: new ( $val . 0 , $val . 1 ) ; "
+           "let mut $d = Deserializer :: from_flavor ( $flavor ) ; let $t = T :: deserialize ( & mut $d ) ? ; "
+           "Ok ( ( $t , $d . finalize ( ) ? ) )")
+
+
+def stack_expr(e, params, what):
+    e = e.strip().rstrip(',').strip()
+    c = compact(e)
+    stores = [(r'^Slice::new\((\w+)\)$', 'Slice', 1), (r'^HVec::default\(\)$', 'HVec', None), (r'^AllocVec::new\(\)$', 'AllocVec', None),
+              (r'^flavors::ExtendFlavor::new\((\w+)\)$', 'ExtendFlavor', 1), (r'^flavors::eio::WriteFlavor::new\((\w+)\)$', 'eio::WriteFlavor', 1),
+              (r'^flavors::io::WriteFlavor::new\((\w+)\)$', 'io::WriteFlavor', 1), (r'^flavors::Size::default\(\)$', 'Size', None)]
+    for rx, name, argi in stores:
+        m = re.match(rx, c)
+        if m:
+            if argi is not None and (len(params) < 2 or m.group(1) != params[1]):
+                raise Untranslatable("%s: `%s` is built from `%s`, not from the second parameter" % (what, name, m.group(1)))
+            return "(KStore %s)" % coq_str(name)
+    m = re.match(r'^Cobs::try_new\((.*)\)\?$', c)
+    if m:
+        return "(KCobs %s)" % stack_expr(m.group(1), params, what)
+    m = re.match(r'^CrcModifier::new\((.*),(\w+)\)$', c)
+    if m:
+        if m.group(2) != params[-1]:
+            raise Untranslatable("%s: CrcModifier built with `%s`" % (what, m.group(2)))
+        return "(KCrc %s)" % stack_expr(m.group(1), params, what)
+    raise Untranslatable("%s: flavour expression `%s`" % (what, c[:100]))
+
+
+def entry_row(name, sig, body, what):
+    params = params_of(sig)
+    c = compact(body)
+    c = re.sub(r'^use\s*super::\w+;', '', c)
+    c = re.sub(r'^usesuper::\w+;', '', c)
+    m = re.match(r'^serialize_with_flavor(?:::<.*?>)?\((\w+),(.*)\)$', c)
+    if m:
+        # the turbofish, if any, ends at the `>` before `(value`
+        m2 = re.match(r'^serialize_with_flavor(?:::<.*>)?\((%s),(.*)\)$' % re.escape(params[0]), c)
+        if not m2:
+            raise Untranslatable("%s: first argument is not the value" % what)
+        return "(%s, %s)" % (coq_str(name), stack_expr(m2.group(2), params, what))
+    m = re.match(r'^((?:\w+::)*\w+)\((.*)\)$', c)
+    if m and m.group(2).split(',') == params:
+        return "(%s, KAlias %s)" % (coq_str(name), coq_str(m.group(1)))
+    raise Untranslatable("%s: body `%s`" % (what, c[:120]))
+
+
+def gen_ser_entry(src, attempt, match_template, tokenize):
+    out = ["(* GENERATED by tools/translate.py from the Rust sources. Do not edit. *)",
+           "From PV Require Import Base SerEntryDecl.", "Open Scope N_scope.", "",
+           "(* source/postcard/src/ser/mod.rs, ser/flavors.rs (crc), de/mod.rs: entry points *)"]
+    ser = src('source/postcard/src/ser/mod.rs')
+    fl = src('source/postcard/src/ser/flavors.rs')
+    de = src('source/postcard/src/de/mod.rs')
+
+    def stacks():
+        rows = []
+        for name in SER_ENTRIES:
+            sig, body = find_fn(ser, name)
+            rows.append(entry_row(name, sig, body, 'ser/mod.rs:' + name))
+        i = fl.index('pub mod crc')
+        mac = fl[i:]
+        for name in ('$to_slice', '$to_vec', '$to_allocvec'):
+            sig, body = find_fn(mac, name)
+            rows.append(entry_row('crc::' + name[1:], sig, body, 'ser/flavors.rs:crc::' + name))
+        inst = re.findall(r'impl_flavor!\((u\d+),\s*(\w+),\s*(\w+),\s*(\w+)\)', mac)
+        irows = ["(%s, [%s])" % (coq_str(w), '; '.join(coq_str(x) for x in (a, b, c))) for w, a, b, c in inst]
+        return ("Definition ser_entry_stacks : list (list N * sstack) :=\n  [%s].\n"
+                "Definition crc_ser_instances : list (list N * list (list N)) :=\n  [%s]." % (';\n   '.join(rows), '; '.join(irows)))
+    attempt(out, 'ser/mod.rs:entry points', stacks, 'ser_entry_stacks')
+
+    def swf():
+        sig, body = find_fn(ser, 'serialize_with_flavor')
+        toks = [t[1] for t in tokenize(body)]
+        cap = match_template(toks, SWF_T.split(), 'ser/mod.rs:serialize_with_flavor')
+        ps = params_of(sig)
+        if [cap['$value'], cap['$storage']] != ps:
+            raise Untranslatable("serialize_with_flavor: parameters %s" % ps)
+        return "Definition serialize_with_flavor_finalize_err : error := %s." % cap['?ERR']
+    attempt(out, 'ser/mod.rs:serialize_with_flavor', swf, 'serialize_with_flavor_finalize_err')
+
+    def deio():
+        rows = []
+        for name in ('from_eio', 'from_io'):
+            sig, body = find_fn(de, name)
+            toks = [t[1] for t in tokenize(body)]
+            cap = match_template(toks, DE_IO_T.split(), 'de/mod.rs:' + name)
+            if [cap['$val']] != params_of(sig):
+                raise Untranslatable("de/mod.rs:%s: parameters" % name)
+            rows.append("(%s, %s)" % (coq_str(name), coq_str(cap['?MOD'] + '::' + cap['?READER'])))
+        for name in ('from_bytes_crc32', 'take_from_bytes_crc32'):
+            sig, body = find_fn(de, name)
+            m = re.match(r'^flavors::crc::(\w+)\((.*)\)$', compact(body))
+            if not m or m.group(2).split(',') != params_of(sig):
+                raise Untranslatable("de/mod.rs:%s: body `%s`" % (name, compact(body)[:100]))
+            rows.append("(%s, %s)" % (coq_str(name), coq_str('crc::' + m.group(1))))
+        return "Definition de_entry_readers : list (list N * list N) :=\n  [%s]." % ';\n   '.join(rows)
+    attempt(out, 'de/mod.rs:io and crc entry points', deio, 'de_entry_readers')
+    return '\n'.join(out) + '\n'
